@@ -425,6 +425,108 @@ theorem repeated_string_rejected (api : List Method) (ss : List Settings) (s : S
 example : fTags.repeated = true ∧ getField mCreate.input "tags" = some fTags ∧
     validate demoApi [⟨"p.S.Create", ["tags"]⟩] = [("p.S.Create", .fields [.notString "tags"])] := by decide
 
+/-! ## Generation time: which views of the API run the validation -/
+
+/-- `view` is a part of `api`: whatever `view.all_methods.get` finds, `api.all_methods.get` finds too (a sub-package
+view holds the services of its own protos only) -/
+def SubApi (view api : List Method) : Prop := ∀ sel m, getMethod view sel = some m → getMethod api sel = some m
+
+theorem entryOk_of_subApi {view api : List Method} (h : SubApi view api) {s : Settings} (hs : EntryOk view s) :
+    EntryOk api s := by
+  obtain ⟨m, hm, hok⟩ := hs
+  exact ⟨m, h _ _ hm, hok⟩
+
+/-- a view never accepts what the whole API rejects -/
+theorem view_accepts_implies_api_accepts {view api : List Method} (h : SubApi view api) (ss : List Settings)
+    (hv : validate view ss = []) : validate api ss = [] := by
+  rw [accepted_iff] at hv ⊢
+  exact ⟨hv.1, fun s hs => entryOk_of_subApi h (hv.2 s hs)⟩
+
+/-- generation goes through iff EVERY view that renders a service accepts the list -/
+theorem generate_nil_iff (views : List (List Method)) (ss : List Settings) :
+    generate views ss = [] ↔ ∀ v ∈ views, validate v ss = [] := by
+  induction views with
+  | nil => simp [generate]
+  | cons v vs ih =>
+    simp only [generate, List.mem_cons, forall_eq_or_imp]
+    by_cases hv : validate v ss = []
+    · simp [hv, ih]
+    · have : (validate v ss).isEmpty = false := by simpa [List.isEmpty_iff] using hv
+      simp [this, hv]
+
+/-- an API without sub-packages: the one view is the API, generation = the validation (everything above applies) -/
+theorem generate_single_view (api : List Method) (ss : List Settings) : generate [api] ss = validate api ss := by
+  simp only [generate]
+  cases h : validate api ss <;> simp
+
+/-- **Generation fails unless the settings are valid, wherever the services live**: as soon as one view of the API
+renders a service (every view being a part of the API), a list that repeats a selector or holds an entry violating
+the statement's conditions aborts the generation. -/
+theorem generation_rejects_invalid (api : List Method) (views : List (List Method)) (ss : List Settings)
+    (hne : views ≠ []) (hsub : ∀ v ∈ views, SubApi v api) (hbad : validate api ss ≠ []) : generate views ss ≠ [] := by
+  intro h
+  rw [generate_nil_iff] at h
+  cases views with
+  | nil => exact hne rfl
+  | cons v vs =>
+    exact hbad (view_accepts_implies_api_accepts (hsub v (List.mem_cons_self ..)) ss (h v (List.mem_cons_self ..)))
+
+theorem generation_rejects_each_single_violation (api : List Method) (views : List (List Method)) (ss : List Settings)
+    (s : Settings) (hne : views ≠ []) (hsub : ∀ v ∈ views, SubApi v api) (hs : s ∈ ss) (hv : Violation api s) :
+    generate views ss ≠ [] :=
+  generation_rejects_invalid api views ss hne hsub (each_single_violation_rejected api ss s hs hv)
+
+theorem generation_rejects_duplicates (api : List Method) (views : List (List Method)) (ss : List Settings)
+    (hne : views ≠ []) (hsub : ∀ v ∈ views, SubApi v api) (h : ¬ (ss.map (·.selector)).Nodup) :
+    generate views ss ≠ [] :=
+  generation_rejects_invalid api views ss hne hsub (fun hv => h ((accepted_iff api ss).mp hv).1)
+
+/-- the views the driver builds (`viewOf`: the API's methods whose selector the view lists) are parts of the API -/
+theorem viewOf_subApi (api : List Method) (sels : List String) : SubApi (viewOf api sels) api := by
+  intro sel m h
+  unfold getMethod viewOf at *
+  induction api with
+  | nil => simp at h
+  | cons a rest ih =>
+    simp only [List.filter_cons] at h
+    by_cases hc : sels.contains a.selector = true
+    · simp only [hc, if_true, List.find?_cons] at h ⊢
+      by_cases ha : (a.selector == sel) = true
+      · simpa [ha] using h
+      · simp only [ha] at h ⊢
+        exact ih h
+    · simp only [hc] at h
+      simp only [List.find?_cons]
+      by_cases ha : (a.selector == sel) = true
+      · -- `a` is filtered out of the view but the view still finds `sel`: then the view lists `sel`, i.e. `a.selector`
+        exfalso
+        have := List.find?_some h
+        have hm := List.mem_filter.mp (List.mem_of_find?_eq_some h)
+        have e1 : a.selector = sel := by simpa using ha
+        have e2 : m.selector = sel := by simpa using this
+        rw [e1, ← e2] at hc
+        exact hc hm.2
+      · simp only [ha]
+        exact ih h
+
+/-- the whole-API direction FAILS on the code: a list that is valid for the API is rejected when a view that does
+not hold the named service validates it ("Method was not found.") — services in sub-packages. -/
+def mAux : Method := ⟨"p.sub.T.Make", false, false, [fName, fId]⟩
+def subApi : List Method := [mCreate, mWatch, mAux]
+
+theorem valid_settings_rejected_by_subpackage_view_counterexample :
+    validate subApi [⟨"p.S.Create", ["request_id"]⟩] = [] ∧
+    generate [viewOf subApi ["p.sub.T.Make"], subApi] [⟨"p.S.Create", ["request_id"]⟩] = [("p.S.Create", .methodNotFound)] := by
+  decide
+
+example : ([viewOf subApi ["p.sub.T.Make"], subApi] : List (List Method)) ≠ [] ∧
+    validate subApi [⟨"p.sub.T.Make", ["name"]⟩] ≠ [] ∧
+    generate [viewOf subApi ["p.sub.T.Make"]] [⟨"p.sub.T.Make", ["name"]⟩] ≠ [] := by decide
+example : SubApi (viewOf subApi ["p.sub.T.Make"]) subApi := viewOf_subApi _ _
+example : ∃ s ∈ [(⟨"p.sub.T.Make", ["name"]⟩ : Settings)], Violation subApi s :=
+  ⟨_, List.mem_singleton.mpr rfl, .required mAux "name" fName (by decide) (by decide) (by decide) (by decide)⟩
+example : ¬ (([⟨"p.sub.T.Make", []⟩, ⟨"p.sub.T.Make", []⟩] : List Settings).map (·.selector)).Nodup := by decide
+
 /-! ## Call time: the population macro -/
 
 section AuxPop
